@@ -292,9 +292,12 @@ def loopPastHandoff (H : HandoffParams) (taken closed : Bool) : Bool := taken ||
 handed that slot — and not on whatever slot a look-up by id returns when the loop's goroutine finally runs -/
 structure KnockLoopParams where
   usesAcceptSlot : Bool
+  /-- the close hook of a multiplexed listener removes the id's pending entry from the table only while that entry is still
+  the one the listener was registered with (a listener can be closed more than once, and the id accepted again in between) -/
+  closeRemovesOwnEntryOnly : Bool
   deriving DecidableEq, Repr
 
-def KnockLoopParams.Good (K : KnockLoopParams) : Prop := K.usesAcceptSlot = true
+def KnockLoopParams.Good (K : KnockLoopParams) : Prop := K.usesAcceptSlot = true ∧ K.closeRemovesOwnEntryOnly = true
 instance (K : KnockLoopParams) : Decidable K.Good := by unfold KnockLoopParams.Good; exact inferInstance
 
 /-- the listener has been closed (its slot's `doneCh` closed, the slot removed from the table).  `closedBeforeLoopRan`:
@@ -302,6 +305,11 @@ that happened before the knock loop's goroutine executed its first statement.  D
 the slot up by id then creates a FRESH slot, whose `doneCh` nothing ever closes: it outlives the listener, the broker
 and `Kill`.) -/
 def knockLoopEnds (K : KnockLoopParams) (closedBeforeLoopRan : Bool) : Bool := K.usesAcceptSlot || !closedBeforeLoopRan
+
+/-- an id is accepted again right after its listener was closed, and the OLD listener is closed once more afterwards (its
+gRPC server stops).  Is the new listener's pending entry still in the table, so that the next knock for the id reaches
+its knock loop? -/
+def reacceptedEntrySurvives (K : KnockLoopParams) (oldClosedAgain : Bool) : Bool := K.closeRemovesOwnEntryOnly || !oldClosedAgain
 
 /-- fact (host side): closing a brokered listener that holds a token — its knock was acknowledged, the announced stream
 was never accepted — takes that stream off the session and closes it, instead of leaving it for whichever listener is
